@@ -58,7 +58,7 @@ def _gb_jobs():
         out.append(Job(f"groupby[key={int(keyed)}]", (IT, "groupby"), (RI, "groupby"), one_src(kw=kw), kind="protocol", props=("C16",),
                        closes=False, release=False, faults=False, opts={"protocol": GroupByProtocol()}))
         out.append(Job(f"groupby[key={int(keyed)},faults]", (IT, "groupby"), (RI, "groupby"), one_src(kw=kw), kind="protocol", props=P,
-                       closes=False, release=False, thorough=True, opts={"protocol": GroupByProtocol()}))
+                       closes=False, release=False, opts={"protocol": GroupByProtocol()}))
     return out
 
 
